@@ -128,6 +128,7 @@ type pathDef struct {
 	tls       bool               // stream: DoT instead of TCP
 	pipelined int                // stream: queries written back to back per burst
 	framing   string             // DoH POST: "" (sized), "unsized" (streamed body without a declared length), "raw-chunked" (hand-written HTTP/1.1 chunked request)
+	split     bool               // stream: every frame is written in pieces cut at interesting byte boundaries
 	halfClose bool               // stream: the client half-closes right after writing a burst of 1…pipelined queries
 	thorough  bool               // only in the thorough tier
 }
@@ -138,6 +139,8 @@ var allPaths = []*pathDef{
 	{name: "dot", family: famStream, tls: true},
 	{name: "tcp-pipelined", family: famStream, pipelined: 6},
 	{name: "dot-pipelined", family: famStream, tls: true, pipelined: 6},
+	{name: "tcp-split", family: famStream, split: true},
+	{name: "dot-split", family: famStream, tls: true, split: true},
 	{name: "tcp-halfclose", family: famStream, pipelined: 5, halfClose: true},
 	{name: "dot-halfclose", family: famStream, tls: true, pipelined: 5, halfClose: true},
 	{name: "doh-h2-get", family: famDoH, variant: tbench.HTTP2, get: true},
